@@ -33,6 +33,9 @@ SRC_DIR = os.path.join(REPO, "o2o-impl", "src")
 XTRACT = os.path.join(VERIF, "tools", "xtract", "target", "release", "xtract")
 
 
+RLIMIT = int(os.environ.get("VERIF_RLIMIT", "400"))
+
+
 class Undecided(Exception):
     """Tool trouble / lost anchor: exit 2, never an alarm."""
 
@@ -262,22 +265,12 @@ def emit_item(u, file, nm, derive):
             else:
                 u.edits.append("%s::%s: %s dropped" % (file, nm, a["text"]))
             pos = a["end"]
-    if it["kind"] in ("struct", "enum", "type", "const"):
-        if vis is not None:
-            if b[vis["start"]:vis["end"]] != b"pub":
-                pieces.append(b[pos:vis["start"]])
-                pieces.append(b"pub")
-                u.edits.append("%s::%s: visibility %s -> pub" % (file, nm, b[vis["start"]:vis["end"]].decode()))
-                pos = vis["end"]
-        else:
-            # item starts (after attributes) with its keyword: prepend `pub`
-            last_attr_end = max([a["end"] for a in it["attrs"]] + [start])
-            m = re.match(rb"\s*", b[max(pos, last_attr_end):end])
-            ins = max(pos, last_attr_end) + m.end()
-            pieces.append(b[pos:ins])
-            pieces.append(b"pub ")
-            u.edits.append("%s::%s: private -> pub" % (file, nm))
-            pos = ins
+    if it["kind"] in ("struct", "enum", "type", "const") and vis is not None:
+        # the whole unit is one private module: item visibility is dropped (Verus refuses `pub(crate)` datatypes
+        # in specs and refuses private spec fns in contracts of `pub` fns)
+        pieces.append(b[pos:vis["start"]])
+        u.edits.append("%s::%s: visibility `%s` dropped" % (file, nm, b[vis["start"]:vis["end"]].decode()))
+        pos = vis["end"]
     pieces.append(b[pos:end])
     txt = b"".join(pieces).decode()
     u.emit(txt, {"kind": "item", "item": nm, "src": (file, it["line_start"])})
@@ -355,6 +348,10 @@ def emit_fn(u, file, nm, block):
 
     # ---- signature
     sig_start = it["start"]
+    if it.get("vis") is not None:
+        v = it["vis"]
+        u.edits.append("%s::%s: visibility `%s` dropped" % (file, nm, b[v["start"]:v["end"]].decode()))
+        sig_start = v["end"]
     # drop attributes of the fn itself? keep verbatim (none in this code base carry meaning for verus)
     if it["ret_start"] is not None:
         head = b[sig_start:it["ret_start"]].decode()
@@ -494,7 +491,7 @@ def run_verus(unit_name, text, workdir, extra_args=None, timeout=900):
     path = os.path.join(workdir, "unit_%s.rs" % unit_name)
     with open(path, "w") as f:
         f.write(text)
-    cmd = ["verus", path, "--output-json", "--time", "--error-format=json", "--crate-type=lib"] + (extra_args or [])
+    cmd = ["verus", path, "--output-json", "--time", "--error-format=json", "--crate-type=lib", "--rlimit", str(RLIMIT), "--num-threads", "8"] + (extra_args or [])
     env = dict(os.environ)
     try:
         p = subprocess.run(cmd, capture_output=True, text=True, timeout=timeout, env=env, cwd=workdir)
